@@ -193,7 +193,7 @@ func c09Build(t *rapid.T, chain *c09Chain) c09Case {
 	}
 	classes := []string{"genuine", "forged-copy", "forged-copy-of-noise-key", "revoked", "unknown", "expired", "not-yet-valid", "no-client-auth",
 		"chain-of-two", "cn-not-address", "issuer-differs", "reissued-by-registered-key", "expired-twin-of-valid", "foreign-cn-registered-by-other",
-		"forged-copy-of-record-with-pem-headers", "genuine-record-with-pem-headers"}
+		"forged-copy-of-record-with-pem-headers", "genuine-record-with-pem-headers", "forged-leaf-plus-genuine"}
 	class := rapid.SampledFrom(classes).Draw(t, "class")
 	cs := c09Case{class: class, expect: "reject", owner: o}
 	switch class {
@@ -264,6 +264,16 @@ func c09Build(t *rapid.T, chain *c09Chain) c09Case {
 		tc := c.tls
 		tc.Certificate = [][]byte{c.der, extra.der}
 		cs.tlsCert = tc
+	case "forged-leaf-plus-genuine":
+		// a two-element chain: the self-made copy first (its key signs the handshake), the tenant's
+		// genuine - public - certificate behind it
+		real := c09Make(good)
+		_ = register(real, owner)
+		f := c09Make(good)
+		cs.present = [][]byte{f.der, real.der}
+		tc := f.tls
+		tc.Certificate = [][]byte{f.der, real.der}
+		cs.tlsCert, cs.hard = tc, true
 	case "cn-not-address":
 		s := good
 		s.cn = "not-a-bech32-address"
